@@ -26,6 +26,7 @@ PROFILE = {"new": 12, "close": 3, "show": 4, "hide": 5, "restack": 8, "geom": 8,
            "scroll": 3, "scrollrect": 1, "tresize": 3, "focus": 1, "cursor": 1, "dead": 1, "_noexpose": 0.4}
 
 
+PROFILE_SCATTER = {"new": 14, "show": 2, "hide": 3, "geom": 4, "expose": 4, "flush": 6, "_noexpose": 0.3}
 PROFILE_LINES = {"new": 14, "show": 2, "hide": 3, "restack": 5, "geom": 4, "expose": 6, "flush": 8, "_noexpose": 0.3}
 
 
@@ -89,6 +90,22 @@ def gen(tier, seed, info):
             prs.append("PR %d %d %s" % (w, len(d), " ".join(d)))
         yield wingen.header(rnd, nl, nc) + " " + " ".join(prs + ops) + " F EA 0 F"
     info["line_grid_cases"] = nline
+    # scattered damage: more than six small disjoint exposes (no two touching) before one flush, hostile programs, and no
+    # restack anywhere, so that the oracle can demand that every rectangle handed to the root was damage
+    nsc = 1500 if tier == "quick" else 50000
+    for _ in range(nsc):
+        nl, nc = rnd.randint(5, 7), rnd.randint(7, 10)
+        ops, sh = wingen.history(rnd, nl, nc, rnd.randint(2, 8), PROFILE_SCATTER)
+        prs = []
+        for w in range(0, sh.next_id):
+            if rnd.random() < 0.7:
+                n, pgm = rnd_prog(rnd, nl, nc)
+                prs.append("PR %d %d %s" % (w, n, pgm))
+        cells = [(y, x) for y in range(0, nl, 2) for x in range(0, nc, 2)]
+        rnd.shuffle(cells)
+        sc = ["E 0 %d %d 1 1" % c for c in cells[:rnd.randint(7, min(len(cells), 14))]]
+        yield wingen.header(rnd, nl, nc) + " " + " ".join(prs + ops) + " F " + " ".join(sc) + " F"
+    info["scattered_damage_cases"] = nsc
 
 
 def dop_kinds(case):
